@@ -578,6 +578,21 @@ def r13(ctx):
     ctx.floor("C07.R13", 5)
 
 
+def r14(ctx):
+    """"importing the write secret upgrades it": what a document is opened with is what the store holds for it *at that moment* -
+    the in-memory state of a replica (ReplicaInfo) is built in exactly one place, Store::load_replica_info (R13 decides that it
+    reads the stored row); nothing else - no memo of an earlier open in the actor, the engine or the API layer - constructs one"""
+    f = ctx.facts
+    allowed = {"store::fs::Store::load_replica_info"}
+    callers = sorted({(b.rec.get("root") or b.path) for b in f.bodies.values() if not b.rec.get("derived") for _, t in b.calls() if callee_matches(t, r"sync::ReplicaInfo::new$")})
+    builders = sorted({(b.rec.get("root") or b.path) for b in f.bodies.values() if not b.rec.get("derived") for _, _, s0 in b.statements()
+                       if s0["k"] == "assign" and s0["r"][0] == "agg" and s0["r"][1][0] == "adt" and s0["r"][1][1] == "sync::ReplicaInfo"})
+    if not callers or not builders:
+        raise mir.AnchorMissing("no construction of sync::ReplicaInfo found (callers of new: %s, aggregates: %s)" % (callers, builders))
+    ctx.check(set(callers) <= allowed, "C07.R14", "sync::ReplicaInfo::new", "replica-state-built-only-from-the-stored-row", "ReplicaInfo::new is called from %s; spec: only %s" % (callers, sorted(allowed)), None)
+    ctx.check(set(builders) <= {"sync::ReplicaInfo::new"}, "C07.R14", "sync::ReplicaInfo", "replica-state-aggregate-only-in-new", "ReplicaInfo values are built in %s" % builders, None)
+    ctx.floor("C07.R14", 2)
+
 def run(ctx):
     ctx.run_rule("C07.R1", r1)
     ctx.run_rule("C07.R2", r2)
@@ -592,3 +607,4 @@ def run(ctx):
     ctx.run_rule("C07.R11", r11)
     ctx.run_rule("C07.R12", r12)
     ctx.run_rule("C07.R13", r13)
+    ctx.run_rule("C07.R14", r14)
